@@ -14,6 +14,7 @@ inductive NameSrc
   | name (n : Str)  -- `table.name`, `table["name"]` or the `^\s*\*\*(\S+)` match of the first cell
   | stale           -- cell-grid whose first cell is not a string: `name` keeps its previous binding
   | fail            -- no way to extract a name: NotImplementedError
+  | noCell          -- cell-grid whose first row is empty: `table[0][0]` raises IndexError
   deriving DecidableEq, Repr
 
 structure Blk (T : Type) where
@@ -45,6 +46,7 @@ def build {T} : List (Blk T) → State T → Option Str → Except Err (State T)
     if !b.isTable then build bs s last
     else match b.src with
       | .fail => .error .notImplemented
+      | .noCell => .error .indexError
       | .stale => match last with
         | none => .error .unboundLocal
         | some n => build bs ⟨addNamed s.named n b.val, s.order ++ [b.val]⟩ (some n)
@@ -87,5 +89,71 @@ def gridName (cell0 : Str) : Option Str :=
     let nm := rest.takeWhile (fun c => !isSpace c)
     if nm.isEmpty then none else some nm
   | _ => none
+
+/-! ## what `__init__` sees of a TABLE block value (store.py:77-101), and item access (store.py:110-121) -/
+
+/-- the first cell of a cell grid's first row -/
+inductive Cell0
+  | noCell            -- the first row is empty: `table[0][0]` raises IndexError
+  | notStr            -- a cell that is not a string
+  | str (s : Str)
+  deriving DecidableEq, Repr
+
+/-- a block value as the constructor's `hasattr` / `isinstance` tests classify it -/
+inductive Rep
+  | named (n : Str)                   -- has a `name` attribute (a Table): `table.name`
+  | dict (name : Option Str)          -- a dict; `some n` iff `table.get("name")` is a str (JsonData)
+  | grid (nRows : Nat) (c0 : Cell0)   -- a list of `nRows` rows (cell grid)
+  | opaque                            -- anything else
+  deriving DecidableEq, Repr
+
+/-- the name extraction of `__init__`, by classification -/
+def nameSrcOf : Rep → NameSrc
+  | .named n => .name n
+  | .dict (some n) => .name n
+  | .dict none => .fail
+  | .grid nRows c0 =>
+    if nRows > 1 then
+      match c0 with
+      | .noCell => .noCell
+      | .notStr => .stale
+      | .str s => match gridName s with
+        | some n => .name n
+        | none => .fail
+    else .fail
+  | .opaque => .fail
+
+/-- a block as supplied: its type flag, its classification, its identity and (if it has one) that of its `.df` -/
+structure RBlk (T : Type) where
+  isTable : Bool
+  rep : Rep
+  val : T
+  df : Option T
+
+/-- `if as_dataframe and hasattr(table, "df"): store table.df else: store table` -/
+def storedOf {T} (asDf : Bool) (b : RBlk T) : T :=
+  match asDf, b.df with
+  | true, some d => d
+  | _, _ => b.val
+
+def toBlk {T} (asDf : Bool) (b : RBlk T) : Blk T := ⟨b.isTable, nameSrcOf b.rep, storedOf asDf b⟩
+
+/-- `TableBundle(blocks, as_dataframe)` on supplied blocks -/
+def ofSupplied {T} (asDf : Bool) (bs : List (RBlk T)) : Except Err (State T) := ofBlocks (bs.map (toBlk asDf))
+
+/-- the argument of `bundle[idx]` as `__getitem__` classifies it (`bool` is an `int`) -/
+inductive Idx
+  | str (n : Str)
+  | int (i : Int)
+  | bool (b : Bool)
+  | other
+  deriving DecidableEq, Repr
+
+/-- `__getitem__`: a string is a name (`unique`), an int (or bool) a position, anything else a TypeError -/
+def getitem {T} (s : State T) : Idx → Except Err T
+  | .str n => unique s n
+  | .int i => getitemInt s i
+  | .bool b => getitemInt s (if b then 1 else 0)
+  | .other => .error .typeError
 
 end Pdt.Bundle
